@@ -161,6 +161,11 @@ class Block:
                 1 for blk in self.circuit.getblocks(type(self))
                 if blk.name.startswith(prefix))
             name = prefix + str(cnt)
+            if name.startswith('_ext_'):
+                # '_ext_' marks the source of external events (see ExtEvent)
+                raise ValueError(
+                    f"Automatic name {name!r} is not allowed, because the prefix '_ext_' "
+                    + "is reserved for sources of external events; name the block explicitly")
         else:
             check_name(name, "block name")
             if name.startswith('_') and not _reserved:
